@@ -36,7 +36,8 @@ def cases(draw, tier):
         return {'mode': 'weights', 'spec': spec, 'expand_first': bool(expand), 'with_default': draw(st.booleans()),
                 'int_literals': draw(st.booleans())}
     base = gen_fgg.specs(recursive=draw(st.booleans()), weights=(0.0, 0.25, 0.5, 1.0, 2.0, math.inf), max_nts=3, max_dom=3, max_edges=3, max_nodes=5)
-    spec = draw(gen_fgg.patterned(base, weights=(0.0, 0.5, 1.0, 2.0)) if draw(st.integers(0, 2)) == 0 else base)
+    # patterned factor weights, also with a default that is not zero (0.5, 2, inf): the writer has to materialise it
+    spec = draw(gen_fgg.patterned(base, weights=(0.0, 0.5, 1.0, 2.0), defaults=(0.0, 0.5, 2.0, math.inf), p_term=0.7, p_label=0.6) if draw(st.booleans()) else base)
     ids = draw(st.sampled_from(['none', 'all', 'mixed']))
     doms = draw(st.sampled_from(['finite', 'range', 'mixed', 'int-values']))
     if mode == 'roundtrip':
